@@ -336,8 +336,18 @@ def operands(kind, rng, budget):
         for k in (1, 2, 3, 9, 18):
             for v in (mx_ // 10 ** k, mx_ // 10 ** k + 1, mx_ // 10 ** k - 1):
                 lits += ['%de%d' % (v, k), '-%de%d' % (v, k), '%d.%de%d' % (v // 10, v % 10, k + 1)]
-        for _ in range(40):
-            k = rng.choice([1, 5, 18, 19, 37, 38, 39, 40, 41, 77])
+        # machine-word boundaries of the coefficient (a narrower accumulator, a digit-count limit off by one,
+        # the 8-digit chunks of the SWAR path) in canonical representations of several scales
+        for b in (31, 32, 53, 63, 64, 65, 96, 126):
+            for dv in (-1, 0, 1, 2 ** (b - 2) + 12345):
+                for n in (0, 1, 9, 18):
+                    t = canonical_text(2 ** b + dv, n)
+                    lits += [t, '-' + t]
+        for k in (7, 8, 9, 15, 16, 17, 19, 20, 21, 24):
+            for v in (10 ** k - 1, 10 ** k, 2 * 10 ** k, 10 ** k + 10 ** (k // 2)):
+                lits += [str(v), '-' + canonical_text(v, 3)]
+        for _ in range(60):
+            k = rng.choice([1, 5, 8, 9, 16, 17, 18, 19, 20, 21, 24, 37, 38, 39, 40, 41, 77])
             ds = ''.join(rng.choice('0123456789') for _ in range(k))
             if rng.random() < 0.5 and k > 1:
                 p = rng.randint(0, k)
